@@ -8,19 +8,24 @@
    creates a new version; `media` is the assigned object and the version it had when assigned
    (o = 0: None); `rendered` is the version the cached rendering was made from (-1 = no cached
    rendering); `data` / `text` are set or not (both outrank media when the body is chosen).
+   `rtype` says which Response class the app uses: the framework's own ("default") or a subclass
+   given as response_type ("custom"; the ASGI app then awaits Response.render_body() instead of
+   its inlined copy).  Nothing depends on it (ResponseTypeIsIrrelevant), nor on whether the
+   document is truthy: [], {}, 0, 0.0, False and "" are documents like any other.
    One action per statement a responder / middleware / test helper can make on the Response.    *)
 EXTENDS Integers, Sequences, TLC
 
 CONSTANTS MaxVersions,        \* bound on versions created
           SetterInvalidates   \* TRUE = design; FALSE = wrong design "assigning the same object keeps the rendering"
 
-VARIABLES media, nobj, nver, rendered, data, text, last
-vars == <<media, nobj, nver, rendered, data, text, last>>
+VARIABLES rtype, media, nobj, nver, rendered, data, text, last
+vars == <<rtype, media, nobj, nver, rendered, data, text, last>>
 
 None == [o |-> 0, v |-> 0]
 Rec(op, kind, v) == [op |-> op, kind |-> kind, v |-> v]
 
-Init == /\ media = None /\ nobj = 0 /\ nver = 0 /\ rendered = -1 /\ data = FALSE /\ text = FALSE
+Init == /\ rtype \in {"default", "custom"}
+        /\ media = None /\ nobj = 0 /\ nver = 0 /\ rendered = -1 /\ data = FALSE /\ text = FALSE
         /\ last = Rec("init", "none", 0)
 
 (* the body the framework produces now: text, else data, else the (cached) rendering of media *)
@@ -39,25 +44,25 @@ AssignNew ==                 \* resp.media = <a new document object>
     /\ nver < MaxVersions
     /\ nobj' = nobj + 1 /\ nver' = nver + 1
     /\ Assign([o |-> nobj + 1, v |-> nver + 1], "new", FALSE)
-    /\ UNCHANGED <<data, text>>
+    /\ UNCHANGED <<rtype, data, text>>
 MutateAssignSame ==          \* d = resp.media; d[...] = ...; resp.media = d
     /\ media.o # 0 /\ nver < MaxVersions
     /\ nver' = nver + 1
     /\ Assign([o |-> media.o, v |-> nver + 1], "mutsame", TRUE)
-    /\ UNCHANGED <<nobj, data, text>>
+    /\ UNCHANGED <<rtype, nobj, data, text>>
 AssignSame ==                \* resp.media = resp.media (unchanged object)
     /\ media.o # 0
     /\ Assign(media, "same", TRUE)
-    /\ UNCHANGED <<nobj, nver, data, text>>
+    /\ UNCHANGED <<rtype, nobj, nver, data, text>>
 AssignNone ==                \* resp.media = None
     /\ Assign(None, "none", FALSE)
-    /\ UNCHANGED <<nobj, nver, data, text>>
+    /\ UNCHANGED <<rtype, nobj, nver, data, text>>
 Render ==                    \* resp.render_body(): returns the body and caches a media rendering it had to make
     /\ last' = [Body EXCEPT !.op = "render"]
     /\ rendered' = IF ~text /\ ~data /\ media.o # 0 THEN MediaVersion ELSE rendered
-    /\ UNCHANGED <<media, nobj, nver, data, text>>
-SetData(b)  == data' = b /\ last' = Rec(IF b THEN "setdata" ELSE "cleardata", "none", 0) /\ UNCHANGED <<media, nobj, nver, rendered, text>>
-SetText(b)  == text' = b /\ last' = Rec(IF b THEN "settext" ELSE "cleartext", "none", 0) /\ UNCHANGED <<media, nobj, nver, rendered, data>>
+    /\ UNCHANGED <<rtype, media, nobj, nver, data, text>>
+SetData(b)  == data' = b /\ last' = Rec(IF b THEN "setdata" ELSE "cleardata", "none", 0) /\ UNCHANGED <<rtype, media, nobj, nver, rendered, text>>
+SetText(b)  == text' = b /\ last' = Rec(IF b THEN "settext" ELSE "cleartext", "none", 0) /\ UNCHANGED <<rtype, media, nobj, nver, rendered, data>>
 
 Next == AssignNew \/ MutateAssignSame \/ AssignSame \/ AssignNone \/ Render
         \/ (\E b \in BOOLEAN : SetData(b)) \/ (\E b \in BOOLEAN : SetText(b))
